@@ -787,6 +787,18 @@ func (h *Hist) Block() bool {
 		if len(h.G.Recent) > 50 {
 			h.G.Recent = h.G.Recent[1:]
 		}
+		if _, charged := tags["tx.fail_fee"]; r.Code != 0 && charged {
+			// failed inside Run: the failure fee was taken, the nonce is unchanged (the same bytes pass the prologue again)
+			h.G.FailedRun = append(h.G.FailedRun, g.Raw)
+			if len(h.G.FailedRun) > 50 {
+				h.G.FailedRun = h.G.FailedRun[1:]
+			}
+			if strings.HasPrefix(g.Note, "malformed:replay") {
+				h.Stats["c26.redelivered-failed-charged"]++
+			}
+		} else if strings.HasPrefix(g.Note, "malformed:replay") {
+			h.Stats["c26.redelivered-free"]++
+		}
 		h.S.Op(txLine(g, r.Code, tags) + fmt.Sprintf(" x.selforders=%d", h.OrdBy[g.Sender]))
 		if r.Code == 0 && g.Type == tx.TypeAddLimitOrder {
 			h.OrdBy[g.Sender]++
